@@ -118,6 +118,13 @@ func isValidBranchName(branchName string) bool {
 	if branchName == "" || strings.HasPrefix(branchName, ".") {
 		return false
 	}
+	// HEAD and the reflog are line and field oriented, so a name must not contain
+	// control characters, blanks or the characters git reserves in reference names
+	for _, c := range branchName {
+		if c < 0x20 || c == 0x7f || strings.ContainsRune(" ~^:?*[", c) {
+			return false
+		}
+	}
 	return !strings.ContainsAny(branchName, "/\\")
 }
 
